@@ -343,7 +343,7 @@ class C19(fw.Property):
                   "oracle-only in the 'wild' stream), expiry of Block1 assemblies, relative roots containing '..', permissions, PATH_MAX, lone surrogates (cannot arrive over the wire), temp-name collisions (tempfile retries).")
     rule = ("streams: pathmodel = joinpath / truediv on hostile segment lists vs pathlib.PurePosixPath; localpath = translated request_to_localpath vs the real method on Message "
             "objects; history = 1-6 requests (GET/PUT/DELETE/POST/FETCH/PATCH/iPATCH x Uri-Path over a path-significant alphabet incl. '', '.', '..', 'a/b', absolute components, "
-            "NUL, 255/256-byte names, Unicode look-alikes x write on/off x ETag/If-Match/If-None-Match x Observe x Block2 num/szx x fetch-all loops x Block1 sequences (complete, gap, short block, restart, repeated last block, "
+            "NUL, 255/256-byte names, Unicode look-alikes x write on/off x ETag/If-Match/If-None-Match x Observe x Block2 num/szx x fetch-all loops x tiling fetches (size exponent changing per request, first request without Block2) x Block1 sequences (complete, gap, short block, restart, repeated last block, "
             "missing first block, Observe bypass, other key; en bloc or interleaved) x root given absolutely or relatively ('.', 'root', './root/', 'root//', working directory set accordingly)) on a random tree with files of "
             "boundary sizes, compared as (effect trace, code, payload/Block2/listing, ETag presence) per request plus the final tree; wild = the same plus Block1 combined with Block2, Block2 on anything, "
             "unknown method codes, queries (oracle only). Non-trivial = at least one file-system effect and (for history) both a success and an error response or a write; distinct by full input.")
@@ -502,6 +502,18 @@ class C19(fw.Property):
             else:                                                                                                # interleaved with the other requests
                 for it in seq:
                     k = rng.randint(k, len(inp["items"])); inp["items"].insert(k, it); k += 1
+        # a block-wise fetch whose size exponent changes from request to request, optionally started the way aiocoap's own client does
+        # (first request without a Block2 option); kept en bloc so that no write to the file comes in between
+        files = [e for e in tree if not e.get("d") and e["size"] > 0]
+        if files and not wild and rng.random() < 0.25:
+            e = rng.choice(files); off = 0; seq = []; tid = rng.randint(1, 10 ** 6)
+            if rng.random() < 0.5: seq.append({"m": 1, "path": list(e["p"]), "tile": tid}); off = 1024
+            while off < e["size"]:
+                fit = [x for x in range(0, 8) if off % 2 ** (min(x, 6) + 4) == 0]
+                szx = rng.choice(fit) if len(seq) < 10 else max(fit); bs = 2 ** (min(szx, 6) + 4)      # after 10 requests: the largest aligned size
+                seq.append({"m": 1, "path": list(e["p"]), "block2": [off // bs, rng.random() < 0.3, szx], "tile": tid}); off += bs
+            if rng.random() < 0.3: seq[0]["etags"] = ["other"]
+            k = rng.randint(0, len(inp["items"])); inp["items"][k:k] = seq
         # the disk is full while the LAST PUT of the history is served (the model has one fixed temporary name: a PUT into the same
         # directory after a left-over temporary file would collide there, whereas tempfile picks another name)
         last = [it for it in inp["items"] if it["m"] == 3][-1:]
@@ -831,6 +843,14 @@ class C19(fw.Property):
                 if it["m"] == 3 and expect is not None and group[0]["code"] == 68 and after is not None and after[i] is not None and after[i] != expect:
                     return ("C19:block1-body-mismatch", "%s: the assembled body has %d bytes, the file written has %d (first difference at %d)" % (
                         what, len(expect), len(after[i]), next((j for j in range(min(len(after[i]), len(expect))) if after[i][j] != expect[j]), min(len(after[i]), len(expect)))))
+            # a tiling fetch (same "tile" id): the payloads of all its requests, in order, are the file
+            if it.get("tile") and (i + 1 == len(inp["items"]) or inp["items"][i + 1].get("tile") != it["tile"]) and side is not None:
+                first = next(j for j, x in enumerate(inp["items"]) if x.get("tile") == it["tile"])
+                if side[first] is not None:
+                    got = b"".join(b"".join(pls[j]) for j in range(first, i + 1))
+                    if any(res["trace"][j][0]["code"] != 69 for j in range(first, i + 1)) or got != side[first]:
+                        return ("C19:tiling-fetch-mismatch", "requests %d..%d fetch %r with blocks %s: %d bytes reassembled, the file has %d" % (
+                            first, i, it["path"], [x.get("block2") for x in inp["items"][first:i + 1]], len(got), len(side[first])))
             # block-wise reads
             disk = side[i] if side is not None and i < len(side) else None
             if it["m"] == 1 and disk is not None and comps and comps[-1] != "" and comps != WKC and not it.get("block1") and not it.get("etags"):
